@@ -23,9 +23,8 @@ open Rxn Driver Rxn.Lsm Driver.C07
 
 structure St where
   s : Ckpt.State := {}
-  spec : Spec := []
-  /-- the specification map at each `Checkpoint` call -/
-  specAt : List (Nat × Spec) := []
+  /-- the expected map and the expected map at each `Checkpoint` call (`Ckpt.stepSpec`, as in `Props/C08.lean`) -/
+  sp : Ckpt.SpecSt := {}
   bad : Bool := false
   flushQ : Nat := 0
   compactQ : Nat := 0
@@ -34,10 +33,10 @@ structure St where
   /-- the checkpoint whose handle that held save will return -/
   heldId : Option Nat := none
 
-def specOf (st : St) (id : Nat) : Spec := ((st.specAt.find? (·.1 == id)).map (·.2)).getD []
+def specOf (st : St) (id : Nat) : Spec := Ckpt.specAt st.sp.saved id
 
 def retainedDone (st : St) (id : Nat) : Bool :=
-  st.s.done.contains id && st.s.ckpts.any (·.id == id) && st.heldId != some id
+  Ckpt.retainedDone st.s id && st.heldId != some id
 
 /-- While a save is held inside `CheckpointList.Save` the code keeps the list mutex, so every other list operation
 waits (`blocked`: nothing happens). The model's save is one atomic step, applied when the held save took its
@@ -54,8 +53,7 @@ def writeOp (st : St) (del : Bool) (k v : Bytes) (hint : List String) : St × St
   let rot := hint == ["rot=1"]
   match stepM st (.write del k v rot) with
   | some st' =>
-    let a : Lsm.Act := if del then .del k else .put k v
-    ({ st' with spec := specStep st.spec st.s.db.seq a, flushQ := st'.flushQ + (if rot then 1 else 0) },
+    ({ st' with sp := Ckpt.stepSpec st.s st.sp (.write del k v rot), flushQ := st'.flushQ + (if rot then 1 else 0) },
      if rot then "rot=1" else "rot=0")
   | none => ({ st with bad := true }, "disabled")
 
@@ -70,7 +68,7 @@ def stepList (st : St) (op : List String) : St × String :=
   match op with
   | ["ckpt", id] =>
     match stepM st (.checkpoint (natOr id)) with
-    | some st' => ({ st' with specAt := (natOr id, st.spec) :: st.specAt }, "captured")
+    | some st' => ({ st' with sp := Ckpt.stepSpec st.s st.sp (.checkpoint (natOr id)) }, "captured")
     | none => (st, "disabled")
   | ["cw", id] =>
     match stepM st (.saveWal (natOr id)) with
@@ -105,9 +103,9 @@ def step (st : St) (ws : List String) : St × String :=
   | ["put", k, v] => writeOp st false (hexOr k) (hexOr v) hint
   | ["del", k] => writeOp st true (hexOr k) [] hint
   | ["get", k] =>
-    (st, withSpec (showAnswer (answer (get st.s.db (hexOr k)))) (showAnswer (answer (Spec.get st.spec (hexOr k)))))
+    (st, withSpec (showAnswer (answer (get st.s.db (hexOr k)))) (showAnswer (answer (Spec.get st.sp.m (hexOr k)))))
   | ["scan", p] =>
-    (st, withSpec (showScan (scan st.s.db (hexOr p))) (showScan (specScan st.spec (hexOr p))))
+    (st, withSpec (showScan (scan st.s.db (hexOr p))) (showScan (specScan st.sp.m (hexOr p))))
   | ["bg", _] =>
     match hint with
     | ["none"] => (st, "none")
@@ -144,7 +142,7 @@ def step (st : St) (ws : List String) : St × String :=
     match Ckpt.run st.s [.crash, .open i rots] with
     | some s' =>
       let n := s'.db.mems.length - 1
-      ({ st with s := s', spec := specOf st i, flushQ := n, compactQ := 0, held := false, heldId := none },
+      ({ st with s := s', sp := Ckpt.stepSpec st.s st.sp (.open i rots), flushQ := n, compactQ := 0, held := false, heldId := none },
        "opened n=" ++ toString n ++ " rots=" ++ showIds rots)
     | none => ({ st with bad := true }, "failed")
   | ["peek", id] =>
